@@ -595,6 +595,32 @@ func rawProbe(line string) (string, string) {
 	return opLine, status
 }
 
+// length words for the modexp header
+func lenWord(r *hx.Rng) *big.Int {
+	switch r.Intn(16) {
+	case 0, 1, 2, 3, 4:
+		return big.NewInt(int64(r.Intn(40)))
+	case 5:
+		return big.NewInt(int64(r.Pick(31, 32, 33, 64, 65, 1024, 1025)))
+	case 6:
+		return new(big.Int).Add(pow2(61), big.NewInt(int64(r.Intn(70))))
+	case 7:
+		return new(big.Int).Add(pow2(uint(r.Pick(32, 60, 61, 62, 63))), big.NewInt(int64(r.Intn(40))))
+	case 8:
+		return new(big.Int).Sub(pow2(64), big.NewInt(int64(1+r.Intn(40))))
+	case 9:
+		return new(big.Int).Add(pow2(64), big.NewInt(int64(r.Intn(70))))
+	case 10:
+		return new(big.Int).Add(pow2(uint(r.Pick(65, 128, 255))), big.NewInt(int64(r.Intn(40))))
+	case 11:
+		return new(big.Int).Sub(pow2(256), big.NewInt(1))
+	case 12:
+		return new(big.Int).SetUint64(r.U64())
+	default:
+		return big.NewInt(int64(r.Intn(3)))
+	}
+}
+
 func (g *gen) precompileInput(addr int) []byte {
 	r := g.r
 	var n int
@@ -623,13 +649,20 @@ func (g *gen) precompileInput(addr int) []byte {
 			}
 		}
 	}
-	if addr == 5 && n >= 96 {
-		// modexp length words: small / boundary
-		for w := 0; w < 3; w++ {
-			v := memArg(r)
-			if r.Chance(2, 3) {
-				v = big.NewInt(int64(r.Intn(40)))
+	if addr == 5 {
+		// modexp header: three 32-byte length words from a boundary lattice that reaches the
+		// uint64 edges (2^61+32 is where 8*(expLen-32) passes 2^64), then a short payload
+		if n < 96 || r.Chance(1, 2) {
+			n = 96 + r.Intn(70)
+			in = r.Bytes(n)
+			if r.Chance(1, 2) {
+				for i := 96; i < n; i++ {
+					in[i] = 0
+				}
 			}
+		}
+		for w := 0; w < 3; w++ {
+			v := lenWord(r)
 			bs := v.Bytes()
 			for i := 0; i < 32; i++ {
 				in[w*32+i] = 0
@@ -844,6 +877,9 @@ func main() {
 	npc := hx.ArgInt(a, "pgas", 1500)
 	for i := 0; i < npc; i++ {
 		addr := 1 + r.Intn(18)
+		if r.Chance(1, 4) {
+			addr = 5
+		}
 		in := g.precompileInput(addr)
 		p := rawPrecompiles[precompileAddr(addr)]
 		op := fmt.Sprintf("pgas %d %s", addr, hexTok(in))
